@@ -66,9 +66,9 @@ ASSUMPTIONS = [
     'np.allclose on affines is identity of affine ids in the executable model (the test affines are pairwise far '
     'apart); the decision rule of update_header is proved for any reflexive closeness predicate',
     'load returns the class that wrote the file (header sniffing, .mat side file of SPM images): compared, not proved',
-    'keep_file_open=True is a harness-only variant of load (same model op); on a COMPRESSED source the persistent '
-    'indexed-gzip handle may serve buffered old content after a layout-changing self-save (region of the open '
-    'findings): such random histories are not generated',
+    'keep_file_open=True is a harness-only variant of load (same model op); its persistent handle (BufferedReader / '
+    'indexed gzip) may serve buffered OLD content after a layout-changing self-save (region of the open findings), '
+    'which the model calls BAD: random histories with keep_file_open never leave the guard',
     'np.memmap(mode="c") / kernel page cache: modelled as a REFERENCE to the current content of the file; reading it '
     'after truncation or after the file was re-laid-out (other dtype/scaling) = outcome BAD (SIGBUS, zeros, garbage '
     'or OSError are not distinguished: all are violations) — partial: the OS behaviour itself is not verified',
@@ -180,14 +180,42 @@ def regen():
         except Exception:
             pass
 
+    def maps_file_ok():
+        """`volumeutils.maps_file` (the guard since fix ae98171b) is true for a np.memmap and for a base-class view of
+        one, false for an array that owns its memory"""
+        import tempfile
+        from nibabel import volumeutils
+        f = getattr(volumeutils, 'maps_file', None)
+        if f is None:
+            return False
+        with tempfile.TemporaryDirectory() as td:
+            fn = os.path.join(td, 'm.bin')
+            np.arange(16, dtype=np.int16).tofile(fn)
+            mm = np.memmap(fn, dtype=np.int16, mode='c')
+            try:
+                return bool(f(mm)) and bool(f(np.asarray(mm))) and bool(f(mm[2:5])) and not f(np.array(mm)) and \
+                    not f(np.arange(4))
+            finally:
+                del mm
+
     def copies_before_open(fn):
-        """in the body of to_file_map: `isinstance(data, np.memmap)` guard precedes the first get_prepare_fileobj"""
+        """in the body of to_file_map: an `if <guard>(data): data = np.array(data)` statement — guard
+        `isinstance(data, np.memmap)` or `maps_file(data)` (checked behaviourally above) — precedes the first
+        get_prepare_fileobj"""
         tree = ast.parse(textwrap.dedent(inspect.getsource(fn)))
         first_copy = first_open = None
         for node in ast.walk(tree):
-            if isinstance(node, ast.Call) and getattr(node.func, 'id', None) == 'isinstance' and \
-                    'memmap' in ast.dump(node) and first_copy is None:
-                first_copy = node.lineno
+            if isinstance(node, ast.If) and isinstance(node.test, ast.Call) and not node.orelse:
+                t = node.test
+                is_mm = getattr(t.func, 'id', None) == 'isinstance' and 'memmap' in ast.dump(t) and \
+                    [getattr(a, 'id', None) for a in t.args[:1]] == ['data']
+                is_mf = getattr(t.func, 'id', None) == 'maps_file' and \
+                    [getattr(a, 'id', None) for a in t.args] == ['data'] and maps_file_ok()
+                copies = any(isinstance(st, ast.Assign) and [getattr(x, 'id', None) for x in st.targets] == ['data'] and
+                             isinstance(st.value, ast.Call) and getattr(st.value.func, 'attr', None) == 'array' and
+                             [getattr(a, 'id', None) for a in st.value.args] == ['data'] for st in node.body)
+                if (is_mm or is_mf) and copies and first_copy is None:
+                    first_copy = node.lineno
             if isinstance(node, ast.Call) and getattr(node.func, 'attr', None) == 'get_prepare_fileobj':
                 first_open = node.lineno if first_open is None else min(first_open, node.lineno)
         return first_copy is not None and first_open is not None and first_copy < first_open
@@ -457,6 +485,9 @@ def rand_init(rng):
     return init
 
 
+LOAD_MODES = [1] * 7 + [2] * 2 + [0] * 5 + [3, 4]     # mmap True / 'r' / False / keep_file_open with, without mmap
+
+
 def rand_spell(rng):
     return '' if rng.random() < 0.7 else '@%d' % rng.randrange(1, 9)
 
@@ -468,7 +499,7 @@ def rand_path(rng):
 def rand_op(rng):
     r = rng.random()
     if r < 0.22:
-        return f'L{rand_path(rng)}{rng.choice([1, 1, 1, 2, 0, 0, 3, 4])}' + rand_spell(rng)
+        return f'L{rand_path(rng)}{rng.choice(LOAD_MODES)}' + rand_spell(rng)
     if r < 0.55:
         return f'S{rand_path(rng)}' + rand_spell(rng)
     if r < 0.68:
@@ -492,23 +523,28 @@ def random_cases(rng, n, safe_bias=0.7):
     for _ in range(n):                                                   # child builds each template only once
         init = rng.choice(pool)
         ln = rng.randrange(4, 13)
-        ops = [f'L{rand_path(rng)}{rng.choice([1, 1, 1, 2, 0, 0, 3, 4])}']
+        ops = [f'L{rand_path(rng)}{rng.choice(LOAD_MODES)}']
         # most random histories avoid the open finding (dtype change followed by a save onto the source) so that
         # long histories stay informative; the rest are unconstrained
         avoid = rng.random() < safe_bias
-        # keep_file_open=True on a COMPRESSED source: the persistent (indexed) gzip handle may keep serving buffered old
-        # content after the file was re-laid-out — what the live image then reads is outside the modelled contract,
-        # so such histories always stay inside the guard
-        kfo_comp = lambda o: o[2] in '34' and pidx(o[1]) in COMPRESSED
-        src, dirty, kc = ops[0][1], False, kfo_comp(ops[0])
+        # keep_file_open=True: the persistent handle (BufferedReader, indexed gzip) may keep serving BUFFERED old content
+        # after the file was re-laid-out (observed: small .mgh / .mgz read back "correctly" through the stale buffer) —
+        # what the live image then reads is outside the modelled contract, so such histories always stay inside the guard
+        # (sticky and conservative: a load may fail — absent file — and leave the previous image live)
+        src, dirty = ops[0][1], False
+        kfo, loaded, dirty_any = ops[0][2] in '34', {ops[0][1]}, False
         while len(ops) < ln:
             o = rand_op(rng)
             if o[0] == 'D':
-                dirty = True
-            if o[0] == 'S' and o[1] == src and dirty and (avoid or kc):
+                dirty = dirty_any = True
+            if o[0] == 'S' and o[1] == src and dirty and avoid:
+                continue
+            if o[0] == 'S' and kfo and dirty_any and o[1] in loaded:
                 continue
             if o[0] == 'L':
-                src, dirty, kc = o[1], False, kfo_comp(o)
+                src, dirty = o[1], False
+                kfo = kfo or o[2] in '34'
+                loaded.add(o[1])
             ops.append(o)
         out.append(mk_case(init, ops, rng.random() < 0.1, 'random'))
     return out
